@@ -76,7 +76,7 @@ func (w *worker) run(ctx context.Context, timeout time.Duration, resultCh chan<-
 
 	for curr := w.state.from; curr <= w.state.to; curr++ {
 		err := w.sample(ctx, timeout, curr)
-		if errors.Is(err, context.Canceled) {
+		if errors.Is(err, context.Canceled) && ctx.Err() != nil {
 			// sampling worker will resume upon restart
 			return
 		}
